@@ -24,6 +24,10 @@ func coreC15(tier string) []RunSpec {
 	for k := 0; k < 12; k++ {
 		out = append(out, RunSpec{Profile: "core:melt-poll-race", Params: map[string]int{"conc": 0, "mpr": 1, "k": k}})
 	}
+	// one state check over the proofs of two melts in flight, after one or both payments ended
+	for k := 0; k < 10; k++ {
+		out = append(out, RunSpec{Profile: "core:checkstate-two-pending", Params: map[string]int{"conc": 0, "c2p": 1, "k": k}})
+	}
 	return out
 }
 
@@ -59,6 +63,12 @@ func runC15(rc *RunCtx) {
 		}
 		rc.S.Probe("c15_late_resolution")
 	}
+	if rc.P("c2p", 0) == 1 {
+		for i := 0; i < 3; i++ {
+			m.step = -30 + 4*i
+			m.StepCheckTwoPending()
+		}
+	}
 	if rc.P("mpr", 0) == 1 {
 		for i := 0; i < 4; i++ {
 			m.step = -20 + i
@@ -79,6 +89,10 @@ func runC15(rc *RunCtx) {
 		}
 		if c {
 			m.StepConcurrentQueries()
+			return
+		}
+		if T.Chance("c2p", 1, 10) {
+			m.StepCheckTwoPending()
 			return
 		}
 		k := T.Pick("step.kind", weights...)
